@@ -155,6 +155,11 @@ func genPlanC05(rt *rapid.T) *Plan {
 	if n > 0 {
 		p.Senders = [][]AppStep{lane}
 	}
+	// a third of the short plans use the group layer on top of the tunnel (several goroutines in Send at once cannot
+	// run on the fake clock - one waits for the other's lock while that one waits for time; the stream job has them)
+	if !long && rapid.IntRange(0, 2).Draw(rt, "group-layer") == 0 {
+		p.Group = true
+	}
 	if n > 1 && rapid.IntRange(0, 3).Draw(rt, "refusals") == 0 {
 		// the gateway refuses some telegrams (error status; its counter advances all the same)
 		for i := 0; i < n; i++ {
